@@ -162,6 +162,16 @@ def mirror (e : Env) (toks : List String) (pre : World) : Env :=
     | some r1, some r2, some ia, some ib =>
       let (aw, i) := e.aw.newComposite r1 ia r2 ib; { e with aw := aw, anames := (n, i) :: e.anames }
     | _, _, _, _ => { e with awOk := false }
+  | ["fn.add", n, a, b] =>
+    match alookup e a, alookup e b with
+    | some ia, some ib =>
+      let (aw, i) := e.aw.newComposite 1 ia 1 ib; { e with aw := aw, anames := (n, i) :: e.anames }
+    | _, _ => { e with awOk := false }
+  | ["fn.sub", n, a, b] =>
+    match alookup e a, alookup e b with
+    | some ia, some ib =>
+      let (aw, i) := e.aw.newComposite 1 ia (-1) ib; { e with aw := aw, anames := (n, i) :: e.anames }
+    | _, _ => { e with awOk := false }
   | ["fn.oracle", f, x, _, _] =>
     match alookup e f, ptDict x with
     | some i, some d => { e with aw := (oracleA e.aw i d).1 }
@@ -195,7 +205,13 @@ def stepCore (e : Env) (line : String) : Env × String :=
   let toks := (line.trimAscii.toString.splitOn " ").filter (· ≠ "")
   let res : Except String (Env × String) := do
     match toks with
-    | ["reset"] => pure ({}, "ok")
+    | ["reset"] =>
+      -- a fresh interpreter state; `nullP` / `nullE` stand for the module-level `null_point` / `null_expression`
+      -- (empty combinations, shared by every model of a process: they must stay empty)
+      let e0 : Env := {}
+      let (hp, e1) ← runM e0 (mkP [])
+      let (he, e2) ← runM e1 (mkE [])
+      pure (bind1 (bind1 e2 "nullP" hp) "nullE" he, "ok")
     | "fn.decl" :: n :: cls :: reuse :: inf :: rest =>
       let some tag := ClassTag.ofString cls | throw "bad class"
       let (pstrs, part) := match rest.reverse with
@@ -220,6 +236,22 @@ def stepCore (e : Env) (line : String) : Env × String :=
       let ha ← lookup e a; let hb ← lookup e b
       let (h, e) ← runM e (do let x ← fnSmul r1 ha; let y ← fnSmul r2 hb; fnAdd x y)
       pure (bind1 e n h, "ok")
+    | ["fn.add", n, a, b] =>
+      -- `a + b` written directly (no scalar multiples in between): the operands may be leaves, and may be the same object
+      let ha ← lookup e a; let hb ← lookup e b
+      let (h, e) ← runM e (fnAdd ha hb)
+      pure (bind1 e n h, "ok")
+    | ["fn.sub", n, a, b] =>
+      let ha ← lookup e a; let hb ← lookup e b
+      let (h, e) ← runM e (do let y ← fnSmul (-1) hb; fnAdd ha y)
+      pure (bind1 e n h, "ok")
+    | ["fn.setparam", f, is, v] =>
+      -- the user changes a class parameter of an existing function (`f.L = 4.`): later class constraints use it
+      let hf ← lookup e f
+      let some i := is.toNat? | throw "bad index"
+      let some q := parseRat v | throw "bad rat"
+      let (_, e) ← runM e (do let fr ← getF hf; setF hf { fr with params := fr.params.set i q })
+      pure (e, "ok")
     | ["fn.setv", f, p] =>
       let hf ← lookup e f; let hp ← lookup e p
       let (_, e) ← runM e (do let fr ← getF hf; setF hf { fr with vPoint := some hp })
@@ -356,6 +388,51 @@ def stepCore (e : Env) (line : String) : Env × String :=
       let rows ← readMatrix e n cells
       let (_, e) ← runM e (do let m ← mkPsd rows; modify fun w => { w with pepPsd := w.pepPsd ++ [m] })
       pure (e, "ok")
+    | "psd.new" :: name :: ns :: cells =>
+      -- a held PSDMatrix: cells are expression names or `#c` python scalars (stored as constant expressions)
+      let some n := ns.toNat? | throw "bad n"
+      if cells.length ≠ n * n then throw "bad matrix"
+      -- a matrix of python scalars only becomes a numeric ndarray whose entries are numpy scalars: `_store` rejects them
+      -- (given as a list of lists; an ndarray of objects keeps python scalars).  The counter is taken before `_store` raises.
+      if cells.all (·.startsWith "#") && !(name.startsWith "ma") then
+        let (_, e) ← runM e (modify fun w => { w with nPsd := w.nPsd + 1 })
+        return (e, "err TypeError")
+      let mut e := e
+      let mut hs : List Nat := []
+      for c in cells do
+        if c.startsWith "#" then
+          let some q := parseRat (c.drop 1).toString | throw "bad scalar"
+          let (h, e') ← runM e (mkE [(EKey.one, q)])
+          e := e'; hs := hs ++ [h]
+        else
+          hs := hs ++ [← lookup e c]
+      let rows := (List.range n).map fun i => (hs.drop (i * n)).take n
+      let (m, e') ← runM e (mkPsd rows)
+      pure (bind1 e' name m, "ok")
+    | ["dump.psd", m] => let hm ← lookup e m; let (s, _) ← runM e (showPsd hm); pure (e, s)
+    | ["pep.addpsd", m] =>
+      let hm ← lookup e m
+      let (_, e) ← runM e (modify fun w => { w with pepPsd := w.pepPsd ++ [hm] })
+      pure (e, "ok")
+    | ["fn.addpsd", f, m] =>
+      let hf ← lookup e f; let hm ← lookup e m
+      let (_, e) ← runM e (do let fr ← getF hf; setF hf { fr with psd := fr.psd ++ [hm] })
+      pure (e, "ok")
+    | ["eval.psd", m] =>
+      let hm ← lookup e m
+      match evalPsd e.w e.ev hm with
+      | .ok rows => pure (e, "ok " ++ String.intercalate ";" (rows.map fun r => String.intercalate "," (r.map showRat)))
+      | .error _ => pure (e, "err ValueError")
+    | ["eval.psddual", m] =>
+      let hm ← lookup e m
+      match evalPsdDual e.ev hm with
+      | .ok v => pure (e, "ok " ++ showRat v)
+      | .error _ => pure (e, "err ValueError")
+    | ["part.new", n, ds] =>
+      -- `BlockPartition(d=...)` called directly: same registration as `PEP.declare_block_partition`
+      let some d := ds.toNat? | throw "bad d"
+      let (h, e) ← runM e (declarePartition d)
+      pure (bind1 e n h, "ok")
     | ["part.decl", n, ds] =>
       let some d := ds.toNat? | throw "bad d"
       let (h, e) ← runM e (declarePartition d)
@@ -365,6 +442,11 @@ def stepCore (e : Env) (line : String) : Env × String :=
       let some k := ks.toNat? | throw "bad k"
       let (h, e) ← runM e (getBlock hb hx k)
       pure (bind1 e n h, "ok")
+    | ["part.addcons", b, c] =>
+      -- a user constraint attached to the partition itself (`BlockPartition.add_constraint`)
+      let hb ← lookup e b; let hc ← lookup e c
+      let (_, e) ← runM e (do let pr ← getPart hb; setPart hb { pr with cons := pr.cons ++ [hc] })
+      pure (e, "ok")
     | ["step.prox", x0, f, g, xn, gn, fnn] =>
       let hx ← lookup e x0; let hf ← lookup e f
       let some r := parseRat g | throw "bad rat"
@@ -544,6 +626,64 @@ def stepCore (e : Env) (line : String) : Env × String :=
     | ["dump.class", f] => let hf ← lookup e f; let (s, _) ← runM e (dumpClass hf); pure (e, s)
     | ["dump.tables", f] => let hf ← lookup e f; let (s, _) ← runM e (dumpTables hf); pure (e, s)
     | ["dump.part", b] => let hb ← lookup e b; let (s, _) ← runM e (dumpPart hb); pure (e, s)
+    | ["dump.cvx", gs, fs, ms] =>
+      -- the real CvxpyWrapper's `_list_of_solver_constraints` (kinds, and residual of every equality / inequality at
+      -- the given values of G, F and of the auxiliary LMI variables) and `_recover_dual_values` on tagged duals,
+      -- against `Cvx.emit` / `Cvx.recover`
+      let parseRow (r : String) : Option (List Rat) := if r.isEmpty then some [] else (r.splitOn ",").mapM parseRat
+      let some G := ((gs.drop 2).toString.splitOn ";").mapM parseRow | throw "bad G"
+      let some F := parseRow (fs.drop 2).toString | throw "bad F"
+      let mstr := (ms.drop 2).toString
+      let some Ms := (if mstr.isEmpty then some [] else (mstr.splitOn "|").mapM (fun m => (m.splitOn ";").mapM parseRow)) | throw "bad M"
+      let sol : Solution := { G := G, F := F, nP := e.w.nP, nE := e.w.nE }
+      let w := e.w
+      -- items in sending order; LMIs numbered in sending order
+      let items : List Item := (List.range w.sent.length).filterMap (fun k =>
+        match (w.sent[k]? : Option Sent) with
+        | some (Sent.cons _) => some (Item.cons k)
+        | some (Sent.psd h) => (w.psds[h]?).map (fun m => Item.psd k m.n)
+        | none => none)
+      let lmiIndex (k : Nat) : Nat := ((List.range k).filter (fun k' => match (w.sent[k']? : Option Sent) with | some (Sent.psd _) => true | _ => false)).length
+      let valOf (eh : Nat) : Option Rat := (w.exs[eh]?).bind (fun o => evalGFRat sol o.d)
+      let cons := emit items
+      let mut kinds : List String := []
+      let mut vals : List String := []
+      let mut idx := 0
+      for c in cons do
+        match c with
+        | .gram => kinds := kinds ++ [s!"P{w.nP}"]
+        | .scalar k =>
+          match (w.sent[k]? : Option Sent) with
+          | some (Sent.cons h) =>
+            match w.cons[h]? with
+            | some co =>
+              kinds := kinds ++ [if co.isEq then "E" else "L"]
+              vals := vals ++ [pad idx ++ ":" ++ (match valOf co.e with | some v => showRat v | none => "none")]
+            | none => throw "bad cons"
+          | _ => throw "bad item"
+        | .psdMain k =>
+          match (w.sent[k]? : Option Sent) with
+          | some (Sent.psd h) => kinds := kinds ++ [s!"P{((w.psds[h]?).map (·.n)).getD 0}"]
+          | _ => throw "bad item"
+        | .psdEntry k i j =>
+          match (w.sent[k]? : Option Sent) with
+          | some (Sent.psd h) =>
+            let some m := w.psds[h]? | throw "bad psd"
+            let eh := (m.entries.getD i []).getD j 0
+            let mv : Rat := ((Ms.getD (lmiIndex k) []).getD i []).getD j 0
+            kinds := kinds ++ ["E"]
+            vals := vals ++ [pad idx ++ ":" ++ (match valOf eh with | some v => showRat (mv - v) | none => "none")]
+          | _ => throw "bad item"
+        idx := idx + 1
+      -- tagged duals: solver constraint number `i` carries the token `5000 + i`
+      let tokens : List Nat := (List.range cons.length).map (· + 5000)
+      let rec? := recover tokens items
+      -- a 0 x 0 multiplier carries no token
+      let sizes : List Nat := w.nP :: items.map (fun it => match it with | .cons _ => 1 | .psd _ n => n)
+      let dualStr := match rec? with
+        | some ds => String.intercalate "," ((ds.zip sizes).map fun (d, sz) => if sz == 0 then "empty" else toString d)
+        | none => "none"
+      pure (e, "kinds=" ++ String.intercalate "," kinds ++ " vals={" ++ String.intercalate "," vals ++ "} duals=" ++ dualStr)
     | ["dump.sent"] => let (s, _) ← runM e dumpSent; pure (e, s)
     | ["dump.pt", p] => let hp ← lookup e p; let (s, _) ← runM e (do pure (showPDict (← getP hp).d)); pure (e, s)
     | ["dump.ex", x] => let hx ← lookup e x; let (s, _) ← runM e (do pure (showEDict (← getE hx).d)); pure (e, s)
